@@ -285,3 +285,290 @@ class DatasetRelabel(Contract):
         yield "dataset-keeps-the-old-name-and-labels", S.land("x" in [a.name for a in env["ds"].axes],
                                                              S.forall(0, S.n(env["snap"]["labels"]["x"]), lambda i: S.implies(
                                                                  i < S.n(env["ds"].axes[0].values), lambda: S.at(env["ds"].axes[0].values, i) == S.at(env["snap"]["labels"]["x"], i))))
+
+
+# ---- C14: Dataset-wide operations that are self-contained (no alignment): take_axis / sort_axis through reduce_axis ---------
+STATES["a(x),b(x,y),c(y)"] = [("a", ["x"]), ("b", ["x", "y"]), ("c", ["y"])]
+
+
+def _var(ds, k):
+    return dict.__getitem__(ds, k)
+
+
+class DatasetTakeAxis(Contract):
+    """ds.take_axis(positions, axis='x', indexing='position') and ds.sort_axis('x') on a Dataset a(x), b(x, y), c(y): the
+    result is a new Dataset with the same variables in the same order; the x axis carries the labels at the taken positions
+    (ascending for sort_axis, each label landing at its sorted rank); every variable that has x holds, at every coordinate,
+    the operand variable's cell at the taken position along x -- exactly DimArray.take_axis / sort_axis on that variable
+    (TakeAxis' / SortAxis' clauses) --; the variable without x is unchanged; the result satisfies the shared-axes invariant;
+    dataset and variable metadata are carried over; the operand dataset is untouched.  [C14, C13]"""
+    target = "dimarray.dataset:Dataset.take_axis"
+    props = ("C14",)
+    inlined = ("reduce_axis", "Dataset.__getitem__", "Dataset.__setitem__ (own contract: DatasetSetItem, C13)", "DatasetAxes", "DimArray.__init__", "Axis.copy")
+
+    def cases(self, tier):
+        for op in ("take_axis", "sort_axis"):
+            for by in ("name", "position"):
+                yield {"name": "%s-axis_by_%s" % (op, by), "op": op, "by": by}
+
+    bound_names = ("ds.x.n", "ds.y.n", "q.n")
+
+    def setup(self, S, case):
+        ds, labels = make_dataset(S, "a(x),b(x,y),c(y)")
+        for k in ("a", "b", "c"):
+            _var(ds, k).attrs["units"] = "K"
+        env = {"ds": ds, "labels": labels, "snap": snapshot_ds(S, ds)}
+        if case["op"] == "take_axis":
+            q = S.array1d("q", "I")
+            n = S.n(labels["x"])
+            S.assume(S.forall(0, S.n(q), lambda k: S.land(0 <= S.at(q, k), S.at(q, k) < n)), "positions in range")
+            env["q"] = q
+        return env
+
+    def call(self, fn, env):
+        case, ds = env["case"], env["ds"]
+        axis = "x" if case["by"] == "name" else 0
+        if case["op"] == "take_axis":
+            return ds.take_axis(env["q"], axis=axis, indexing="position")
+        return ds.sort_axis(axis)
+
+    def post(self, S, case, env, result):
+        ds, labels, snap = env["ds"], env["labels"], env["snap"]
+        X, Y = labels["x"], labels["y"]
+        nx, ny = S.n(X), S.n(Y)
+        yield "returns-a-new-dataset", type(result) is type(ds) and result is not ds
+        ok = list(dict.keys(result)) == ["a", "b", "c"] and [ax.name for ax in result.axes] == ["x", "y"]
+        yield "same-variables-and-dimensions-in-order", ok
+        if not ok:
+            return
+        for c in ds_inv(S, result):
+            yield c
+        Xr, Yr = result.axes["x"].values, result.axes["y"].values
+        if case["op"] == "take_axis":
+            q = env["q"]
+            m = S.n(q)
+            src = lambda k: S.at(q, k)
+            yield "x-carries-the-labels-at-the-taken-positions", S.land(S.n(Xr) == m, S.forall(0, m, lambda k: S.implies(k < S.n(Xr), lambda: S.at(Xr, k) == S.at(X, src(k)))))
+        else:
+            m = nx
+            rank = S.sort_rank(X)
+            yield "x-ascending", S.land(S.n(Xr) == nx, S.forall2(0, nx, lambda i, j: S.at(Xr, i) <= S.at(Xr, j)))
+            yield "every-label-lands-at-its-sorted-rank", S.forall(0, nx, lambda p: S.land(0 <= S.at(rank, p), S.at(rank, p) < nx, S.implies(
+                S.land(0 <= S.at(rank, p), S.at(rank, p) < nx), lambda: S.at(Xr, S.at(rank, p)) == S.at(X, p))))
+        yield "y-labels-unchanged", S.land(S.n(Yr) == ny, S.forall(0, ny, lambda j: S.implies(j < S.n(Yr), lambda: S.at(Yr, j) == S.at(Y, j))))
+        a, b, c = _var(result, "a"), _var(result, "b"), _var(result, "c")
+        a0, b0, c0 = snap["data"]["a"], snap["data"]["b"], snap["data"]["c"]
+        yield "dims-of-the-variables-kept", tuple(a.dims) == ("x",) and tuple(b.dims) == ("x", "y") and tuple(c.dims) == ("y",)
+        if case["op"] == "take_axis":
+            yield "a:cells-at-the-taken-positions", S.forall(0, m, lambda k: S.same(S.at(a.values, k), S.at(a0, src(k))))
+            yield "b:slices-at-the-taken-positions", S.forall_nd([m, ny], lambda k, j: S.same(S.at(b.values, k, j), S.at(b0, src(k), j)))
+        else:
+            # every slice moves with its label
+            yield "a:cells-move-with-their-labels", S.forall(0, nx, lambda k: S.forall(0, nx, lambda p: S.implies(S.at(X, p) == S.at(Xr, k), lambda: S.same(S.at(a.values, k), S.at(a0, p)))))
+            yield "b:slices-move-with-their-labels", S.forall_nd([nx, ny], lambda k, j: S.forall(0, nx, lambda p: S.implies(S.at(X, p) == S.at(Xr, k), lambda: S.same(S.at(b.values, k, j), S.at(b0, p, j)))))
+        yield "c:variable-without-the-axis-unchanged", S.land(S.n(c.values) == ny, S.forall(0, ny, lambda j: S.same(S.at(c.values, j), S.at(c0, j))))
+        yield "variable-metadata-carried-over", all(dict(v.attrs) == {"units": "K"} for v in (a, b, c))
+        yield "dataset-metadata-carried-over", dict(result.attrs) == snap["attrs"]
+        yield "no-axis-object-shared-with-the-operand", all(ax is not bx for ax in result.axes for bx in snap["axes"])
+        for cl in unchanged_ds(S, ds, snap):
+            yield ("operand:" + cl[0],) + tuple(cl[1:])
+
+    def canaries(self, S, case, env, result):
+        yield "result-has-no-x-labels", S.n(result.axes["x"].values) == 0
+
+
+def _axisloc_stub():
+    # label lookups on the dataset's axes go through AbstractAxis.loc: used through its contract (AxisLoc, C01), as _get_indices is
+    from dverif.stubs import stub_of
+    from .bases import AxisLoc
+    return stub_of(AxisLoc)
+
+
+class DatasetTake(Contract):
+    """Indexing a Dataset a(x), b(x, y), c(y) along x -- ds.ix[p] / ds.isel(x=p) (one position), ds.isel(x=[positions]),
+    ds.loc[label] / ds.sel(x=label) / ds.take(label, axis='x') (one label, IndexError if absent), ds.take([labels], axis='x')
+    -- gives a new Dataset in which every variable that has x holds exactly the operand variable's cells at the addressed
+    positions (the position of a label being the one where the x axis carries it), x is dropped for a single index and carries
+    the addressed labels for a list, the variable without x is unchanged, the shared-axes invariant holds, dataset and
+    variable metadata are carried over and the operand is untouched.  [C14, C13]"""
+    target = "dimarray.dataset:Dataset.take"
+    props = ("C14",)
+    uses = (_axisloc_stub(),)
+    inlined = ("_get_indices (own contract: GetIndices, C01)", "_getaxes_ortho", "DimArray.take -> _getitem (own contract: GetItem, C01)",
+               "Dataset.__setitem__ (own contract: DatasetSetItem, C13)", "Indexable accessors")
+
+    FORMS = ("ix-scalar", "isel-scalar", "isel-list", "loc-scalar", "sel-scalar", "take-label", "take-label-list", "take-position")
+
+    def cases(self, tier):
+        for form in self.FORMS:
+            yield {"name": form, "form": form}
+
+    bound_names = ("ds.x.n", "ds.y.n", "q.n")
+
+    def setup(self, S, case):
+        ds, labels = make_dataset(S, "a(x),b(x,y),c(y)")
+        for k in ("a", "b", "c"):
+            _var(ds, k).attrs["units"] = "K"
+        for ax in ds.axes:
+            S.tag(ax.values, "order", "unique")       # (selects the case of the callee contract; its requires is still proved)
+        env = {"ds": ds, "labels": labels, "snap": snapshot_ds(S, ds)}
+        n = S.n(labels["x"])
+        f = case["form"]
+        if f in ("ix-scalar", "isel-scalar", "take-position"):
+            p = S.int("p")
+            S.assume(S.land(0 <= p, p < n), "position in range")
+            env["p"] = p
+        elif f == "isel-list":
+            q = S.array1d("q", "I")
+            S.assume(S.forall(0, S.n(q), lambda k: S.land(0 <= S.at(q, k), S.at(q, k) < n)), "positions in range")
+            env["q"] = q
+        elif f in ("loc-scalar", "sel-scalar", "take-label"):
+            env["lab"] = S.real("lab")
+        else:
+            env["l0"], env["l1"] = S.real("l0"), S.real("l1")
+            env["labs"] = S.asarray([env["l0"], env["l1"]])
+        return env
+
+    def call(self, fn, env):
+        f, ds = env["case"]["form"], env["ds"]
+        if f == "ix-scalar":
+            return ds.ix[env["p"]]
+        if f == "isel-scalar":
+            return ds.isel(x=env["p"])
+        if f == "take-position":
+            return ds.take(indices=env["p"], axis="x", indexing="position")
+        if f == "isel-list":
+            return ds.isel(x=env["q"])
+        if f == "loc-scalar":
+            return ds.loc[env["lab"]]
+        if f == "sel-scalar":
+            return ds.sel(x=env["lab"])
+        if f == "take-label":
+            return ds.take(indices=env["lab"], axis="x")
+        return ds.take(indices=[env["l0"], env["l1"]], axis="x")
+
+    def raises(self, S, case, env):
+        from .common import absent
+        X = env["labels"]["x"]
+        f = case["form"]
+        if f in ("loc-scalar", "sel-scalar", "take-label"):
+            return {IndexError: absent(S, X, env["lab"])}
+        if f == "take-label-list":
+            return {IndexError: S.lor(absent(S, X, env["l0"]), absent(S, X, env["l1"]))}
+        return {}
+
+    def post(self, S, case, env, result):
+        ds, labels, snap = env["ds"], env["labels"], env["snap"]
+        X, Y = labels["x"], labels["y"]
+        nx, ny = S.n(X), S.n(Y)
+        f = case["form"]
+        scalar = f in ("ix-scalar", "isel-scalar", "take-position", "loc-scalar", "sel-scalar", "take-label")
+        yield "returns-a-new-dataset", type(result) is type(ds) and result is not ds
+        ok = list(dict.keys(result)) == ["a", "b", "c"] and [ax.name for ax in result.axes] == (["y"] if scalar else ["x", "y"])
+        yield "same-variables;x-dropped-for-a-single-index", ok
+        if not ok:
+            return
+        for c in ds_inv(S, result):
+            yield c
+        a, b, c = _var(result, "a"), _var(result, "b"), _var(result, "c")
+        a0, b0, c0 = snap["data"]["a"], snap["data"]["b"], snap["data"]["c"]
+        Yr = result.axes["y"].values
+        yield "y-labels-unchanged", S.land(S.n(Yr) == ny, S.forall(0, ny, lambda j: S.implies(j < S.n(Yr), lambda: S.at(Yr, j) == S.at(Y, j))))
+        if scalar:
+            yield "dims-of-the-variables", tuple(a.dims) == () and tuple(b.dims) == ("y",) and tuple(c.dims) == ("y",)
+            if "p" in env:
+                hit = lambda p: p == env["p"]
+            else:
+                hit = lambda p: S.at(X, p) == env["lab"]
+            yield "a:the-addressed-cell", S.forall(0, nx, lambda p: S.implies(hit(p), lambda: S.same(S.at(a.values), S.at(a0, p))))
+            yield "b:the-addressed-slice", S.forall(0, nx, lambda p: S.implies(hit(p), lambda: S.forall(0, ny, lambda j: S.same(S.at(b.values, j), S.at(b0, p, j)))))
+        else:
+            Xr = result.axes["x"].values
+            yield "dims-of-the-variables", tuple(a.dims) == ("x",) and tuple(b.dims) == ("x", "y") and tuple(c.dims) == ("y",)
+            if f == "isel-list":
+                q = env["q"]
+                m = S.n(q)
+                yield "x-carries-the-addressed-labels", S.land(S.n(Xr) == m, S.forall(0, m, lambda k: S.implies(k < S.n(Xr), lambda: S.at(Xr, k) == S.at(X, S.at(q, k)))))
+                yield "a:cells-at-the-addressed-positions", S.forall(0, m, lambda k: S.same(S.at(a.values, k), S.at(a0, S.at(q, k))))
+                yield "b:slices-at-the-addressed-positions", S.forall_nd([m, ny], lambda k, j: S.same(S.at(b.values, k, j), S.at(b0, S.at(q, k), j)))
+            else:
+                labs = env["labs"]
+                m = S.n(labs)
+                yield "x-carries-the-addressed-labels", S.land(S.n(Xr) == m, S.forall(0, m, lambda k: S.implies(k < S.n(Xr), lambda: S.at(Xr, k) == S.at(labs, k))))
+                yield "a:cells-at-the-addressed-labels", S.forall(0, m, lambda k: S.forall(0, nx, lambda p: S.implies(S.at(X, p) == S.at(labs, k), lambda: S.same(S.at(a.values, k), S.at(a0, p)))))
+                yield "b:slices-at-the-addressed-labels", S.forall_nd([m, ny], lambda k, j: S.forall(0, nx, lambda p: S.implies(S.at(X, p) == S.at(labs, k), lambda: S.same(S.at(b.values, k, j), S.at(b0, p, j)))))
+        yield "c:variable-without-the-axis-unchanged", S.land(S.n(c.values) == ny, S.forall(0, ny, lambda j: S.same(S.at(c.values, j), S.at(c0, j))))
+        # (a variable reduced to a scalar is what DimArray indexing returns for it: a bare number, which has no metadata)
+        yield "variable-metadata-carried-over", all(dict(v.attrs) == {"units": "K"} for v in ((b, c) if scalar else (a, b, c)))
+        yield "dataset-metadata-carried-over", dict(result.attrs) == snap["attrs"]
+        for cl in unchanged_ds(S, ds, snap):
+            yield ("operand:" + cl[0],) + tuple(cl[1:])
+
+    def canaries(self, S, case, env, result):
+        yield "result-has-no-y-labels", S.n(result.axes["y"].values) == 0
+
+
+class DatasetScalarOp(Contract):
+    """ds op s (s a scalar; + - * / // **, both operand orders where Python provides them) and -ds on a Dataset a(x), b(x, y),
+    c(y): a new Dataset with the same variables in order, each holding NumPy's op of its cells and s (the negation of its
+    cells), over axes with the operand's labels, satisfying the shared-axes invariant; the operand is untouched.  [C14, C13]"""
+    target = "dimarray.dataset:Dataset._binary_op"
+    props = ("C14",)
+    inlined = ("OpMixin operators", "Dataset._binary_op / _unary_op", "DimArray._binary_op -> operation (own contract: ScalarOperation, C04)",
+               "Dataset.__setitem__ (own contract: DatasetSetItem, C13)")
+
+    def cases(self, tier):
+        for op in ("add", "subtract", "multiply", "true_divide", "floor_divide", "power"):
+            for order in ("ds-op-s", "s-op-ds"):
+                if tier == "quick" and order == "s-op-ds" and op not in ("subtract", "true_divide", "power"):
+                    continue
+                yield {"name": "%s-%s" % (op, order), "op": op, "order": order}
+        yield {"name": "negate", "op": "negate", "order": "unary"}
+
+    bound_names = ("ds.x.n", "ds.y.n")
+
+    def setup(self, S, case):
+        ds, labels = make_dataset(S, "a(x),b(x,y),c(y)")
+        return {"ds": ds, "labels": labels, "snap": snapshot_ds(S, ds), "s": S.real("s")}
+
+    def call(self, fn, env):
+        import operator
+        case, ds, s = env["case"], env["ds"], env["s"]
+        if case["op"] == "negate":
+            return -ds
+        f = {"add": operator.add, "subtract": operator.sub, "multiply": operator.mul, "true_divide": operator.truediv,
+             "floor_divide": operator.floordiv, "power": operator.pow}[case["op"]]
+        return f(ds, s) if case["order"] == "ds-op-s" else f(s, ds)
+
+    def post(self, S, case, env, result):
+        ds, labels, snap, s = env["ds"], env["labels"], env["snap"], env["s"]
+        X, Y = labels["x"], labels["y"]
+        nx, ny = S.n(X), S.n(Y)
+        yield "returns-a-new-dataset", type(result) is type(ds) and result is not ds
+        ok = list(dict.keys(result)) == ["a", "b", "c"] and sorted(ax.name for ax in result.axes) == ["x", "y"]
+        yield "same-variables-and-dimensions", ok
+        if not ok:
+            return
+        for c in ds_inv(S, result):
+            yield c
+        Xr, Yr = result.axes["x"].values, result.axes["y"].values
+        yield "x-labels-unchanged", S.land(S.n(Xr) == nx, S.forall(0, nx, lambda i: S.implies(i < S.n(Xr), lambda: S.at(Xr, i) == S.at(X, i))))
+        yield "y-labels-unchanged", S.land(S.n(Yr) == ny, S.forall(0, ny, lambda j: S.implies(j < S.n(Yr), lambda: S.at(Yr, j) == S.at(Y, j))))
+        op = case["op"]
+        if op == "negate":
+            f = lambda v: S.same(v[0], -v[1])
+        elif case["order"] == "ds-op-s":
+            f = lambda v: S.same(v[0], S.op(op, v[1], s))
+        else:
+            f = lambda v: S.same(v[0], S.op(op, s, v[1]))
+        a, b, c = _var(result, "a"), _var(result, "b"), _var(result, "c")
+        a0, b0, c0 = snap["data"]["a"], snap["data"]["b"], snap["data"]["c"]
+        yield "dims-of-the-variables-kept", tuple(a.dims) == ("x",) and tuple(b.dims) == ("x", "y") and tuple(c.dims) == ("y",)
+        yield "a:cell-by-cell", S.forall(0, nx, lambda i: f((S.at(a.values, i), S.at(a0, i))))
+        yield "b:cell-by-cell", S.forall_nd([nx, ny], lambda i, j: f((S.at(b.values, i, j), S.at(b0, i, j))))
+        yield "c:cell-by-cell", S.forall(0, ny, lambda j: f((S.at(c.values, j), S.at(c0, j))))
+        for cl in unchanged_ds(S, ds, snap):
+            yield ("operand:" + cl[0],) + tuple(cl[1:])
+
+    def canaries(self, S, case, env, result):
+        yield "result-has-no-y-labels", S.n(result.axes["y"].values) == 0
